@@ -53,7 +53,7 @@ func Expand(p *core.Prog, r *core.Report) {
 func Normalize(p *core.Prog, r *core.Report) {
 	r.Rule("SIBLING", ruleText, 1)
 	Delegate(p, r, "Normalize")
-	Check(p, r, Pair{Rule: "SIBLING", Pkg: core.PkgGts, A: "Ranged.Shift", B: "Ranged.Normalize", From: "left", To: "left",
+	Check(p, r, Pair{Rule: "SIBLING", Pkg: core.PkgGts, A: "Ranged.Shift", B: "Ranged.Normalize", From: "call:Range", To: "",
 		BlindArgs: []string{"Range"}, Fold: map[string]string{"recv.Partial": "partial"},
 		Why: "splitting a range in two (around an insertion, or across the origin) moves the 5' marker to the left piece and the 3' marker to the right piece in the same way"})
 }
